@@ -481,6 +481,8 @@ type Contract struct {
 	Requires  []*Clause
 	Ensures   []*Clause
 	Checks    []*Clause
+	BeforeAssumes []BeforeAssume
+	BeforeAsserts []BeforeAssert
 	Modifies  []*Expr
 	ModAll    bool
 	Inline    bool
@@ -522,6 +524,17 @@ type SpecFunc struct {
 	Pkg     string
 }
 
+type BeforeAssert struct {
+	Callee string
+	C      *Clause
+}
+
+type BeforeAssume struct {
+	Callee string
+	E      *Expr
+	Src    string
+}
+
 type Lemma struct {
 	Name     string
 	Params   []SpecParam
@@ -548,7 +561,7 @@ func newSpecs() *Specs {
 
 var clauseKw = map[string]bool{"func": true, "loop": true, "spec": true, "lemma": true, "props": true, "requires": true,
 	"ensures": true, "modifies": true, "invariant": true, "inline": true, "trusted": true, "pure": true, "allocates": true,
-	"nosafety": true, "use": true, "end": true, "plain": true, "assume": true, "check": true, "decreases": true}
+	"nosafety": true, "use": true, "end": true, "plain": true, "assume": true, "check": true, "decreases": true, "assert": true}
 
 // loadSpecFile parses one contract file. pkg is the package key the file belongs to.
 func (sp *Specs) loadSpecFile(path, pkg string, trustedFile bool) error {
@@ -691,9 +704,20 @@ func (sp *Specs) loadSpecFile(path, pkg string, trustedFile bool) error {
 			cur.Allocates = e
 		case "assume":
 			// assume <expr> at <local>: an explicit, reported assumption made when the local is first bound
+			if bi := strings.LastIndex(rest, " before "); bi >= 0 && cur != nil && !strings.Contains(rest[bi+8:], " ") {
+				// assume <expr> before <callee>: an explicit, reported assumption made right before each call of the
+				// callee from the function under verification; the expression is over the callee's parameter names
+				be, err := parseExpr(strings.TrimSpace(rest[:bi]))
+				if err != nil {
+					return fail(err)
+				}
+				cur.BeforeAssumes = append(cur.BeforeAssumes, BeforeAssume{Callee: strings.TrimSpace(rest[bi+8:]), E: be, Src: strings.TrimSpace(rest[:bi])})
+				sp.Scanned = append(sp.Scanned, fmt.Sprintf("explicit assumption in %s before %s: %s", cur.Name, strings.TrimSpace(rest[bi+8:]), strings.TrimSpace(rest[:bi])))
+				break
+			}
 			ai := strings.LastIndex(rest, " at ")
 			if ai < 0 || cur == nil {
-				return fail(fmt.Errorf("assume needs 'at <local>' inside a func block"))
+				return fail(fmt.Errorf("assume needs 'at <local>' or 'before <callee>' inside a func block"))
 			}
 			e, err := parseExpr(strings.TrimSpace(rest[:ai]))
 			if err != nil {
@@ -701,6 +725,19 @@ func (sp *Specs) loadSpecFile(path, pkg string, trustedFile bool) error {
 			}
 			cur.AnchoredUses = append(cur.AnchoredUses, AnchoredUse{Anchor: strings.TrimSpace(rest[ai+4:]), E: &Expr{Op: "assume", Args: []*Expr{e}, Src: strings.TrimSpace(rest[:ai])}})
 			sp.Scanned = append(sp.Scanned, fmt.Sprintf("explicit assumption in %s: %s", cur.Name, strings.TrimSpace(rest[:ai])))
+		case "assert":
+			// assert[Cxx] label: <expr> before <callee>: proved right before each direct call of the callee; the expression
+			// is over the callee's parameter names, the function's parameters and its locals
+			bi := strings.LastIndex(rest, " before ")
+			if bi < 0 || cur == nil {
+				return fail(fmt.Errorf("assert needs 'before <callee>' inside a func block"))
+			}
+			cl, err := parseClause(strings.TrimSpace(rest[:bi]))
+			if err != nil {
+				return fail(err)
+			}
+			cl.Line = ln
+			cur.BeforeAsserts = append(cur.BeforeAsserts, BeforeAssert{Callee: strings.TrimSpace(rest[bi+8:]), C: cl})
 		case "plain":
 			cur.Plain = append(cur.Plain, strings.Fields(rest)...)
 		case "inline":
